@@ -1121,3 +1121,334 @@ func c14TypeCacheLocked(c *core.Ctx) {
 	}
 	c.Floor("typeCache/accesses", n, 4)
 }
+
+// c09CloneSharesNothingMutable: a child view starts as a clone of its parent's; what the clone carries over by reference must be immutable
+// or shared on purpose (the disk handle, the copy-on-write trie root). A map or slice field handed over as it is — a memo keyed by height,
+// say — is written by both views, and equal-height siblings then read each other's entries.
+func c09CloneSharesNothingMutable(c *core.Ctx) {
+	n := 0
+	for _, tn := range []string{"AccountTrieDB", "CandidateTrieDB"} {
+		fn := c.Fn("store." + tn + ".Clone")
+		n++
+		for _, b := range fn.Blocks {
+			for _, in := range b.Instrs {
+				st, ok := in.(*ssa.Store)
+				if !ok {
+					continue
+				}
+				fa, ok := st.Addr.(*ssa.FieldAddr)
+				if !ok {
+					continue
+				}
+				if _, fresh := fa.X.(*ssa.Alloc); !fresh {
+					continue
+				}
+				f := core.FieldOf(fa)
+				if f == nil {
+					continue
+				}
+				switch f.Type().Underlying().(type) {
+				case *types.Map, *types.Slice:
+				default:
+					continue
+				}
+				shared := false
+				if ld, isLd := st.Val.(*ssa.UnOp); isLd && ld.Op == token.MUL {
+					if src, isFA := ld.X.(*ssa.FieldAddr); isFA && src.X == ssa.Value(fn.Params[0]) {
+						shared = true
+					}
+				}
+				c.Check(tn+".Clone:"+f.Name()+"-not-shared", "cow-ownership", !shared, st.Pos(), "the clone gets its own %s (a map or slice carried over by reference is written by parent and child alike)", f.Name())
+			}
+		}
+	}
+	c.Floor("view-clones/examined", n, 2)
+}
+
+// c11VotesAreQuotientDifference: the votes a balance is worth are floor(balance / VoteExchangeRate); the end-of-block adjustment is the
+// difference of the two quotients (old balance, new balance), not the quotient of the difference — the two disagree whenever a balance
+// crosses a multiple of the rate by an amount that is not one. Shape decided: in getVotesChangesByLogs the rate divides a value drawn from
+// OldVal alone and a value drawn from NewVal alone.
+func c11VotesAreQuotientDifference(c *core.Ctx) {
+	fn := c.Fn("chain/transaction.getVotesChangesByLogs")
+	rate := c.Global("chain/params.VoteExchangeRate")
+	oldF, newF := c.FieldVar("chain/types.ChangeLog", "OldVal"), c.FieldVar("chain/types.ChangeLog", "NewVal")
+	divOld, divNew, mixed := false, false, false
+	for _, ci := range core.AllCalls(fn) {
+		o := core.CalleeObj(ci)
+		if o == nil || (o.Name() != "Div" && o.Name() != "Quo") || o.Pkg() == nil || o.Pkg().Path() != "math/big" {
+			continue
+		}
+		a := ci.Common().Args
+		if len(a) != 3 {
+			continue
+		}
+		byRate := false
+		for v := range core.SliceShallow(a[2]) {
+			if g, ok := v.(*ssa.Global); ok && g.Object() == rate {
+				byRate = true
+			}
+		}
+		if !byRate {
+			continue
+		}
+		hasOld, hasNew := false, false
+		for v := range core.Slice(a[1]) {
+			switch core.FieldOf(v) {
+			case oldF:
+				hasOld = true
+			case newF:
+				hasNew = true
+			}
+		}
+		switch {
+		case hasOld && hasNew:
+			mixed = true
+		case hasOld:
+			divOld = true
+		case hasNew:
+			divNew = true
+		}
+	}
+	c.Check("getVotesChangesByLogs:floor(new/rate)−floor(old/rate)", "arithmetic-shape", divOld && divNew && !mixed, fn.Pos(), "the rate divides the old balance and the new balance separately (quotients first, difference second)")
+}
+
+// c16MemoryZeroSizeFirst: a zero-length operand reserves no memory whatever its offset (the gas functions charge for offset+size only when
+// size > 0), so the offset of such an operand is unchecked: Memory.Get and Memory.GetPtr slice the store only on the size ≠ 0 edge of a
+// test of their size parameter.
+func c16MemoryZeroSizeFirst(c *core.Ctx) {
+	n := 0
+	for _, m := range []string{"Get", "GetPtr"} {
+		fn := c.Fn("chain/vm.Memory." + m)
+		if len(fn.Params) < 3 {
+			c.Undecided("Memory."+m+":shape", "guarded-action", fn.Pos(), "(offset, size) expected")
+			continue
+		}
+		size := fn.Params[2]
+		// same-package helpers that slice on behalf of fn are covered when they are Get/GetPtr themselves
+		for _, b := range fn.Blocks {
+			for _, in := range b.Instrs {
+				sl, ok := in.(*ssa.Slice)
+				if !ok {
+					continue
+				}
+				n++
+				guarded := false
+				for _, t := range fn.Blocks {
+					ifi := ifOf(t)
+					if ifi == nil || !t.Dominates(b) {
+						continue
+					}
+					bo, isB := ifi.Cond.(*ssa.BinOp)
+					if !isB {
+						continue
+					}
+					k, isK := bo.Y.(*ssa.Const)
+					if bo.X != ssa.Value(size) || !isK || k.Value == nil || k.Int64() != 0 {
+						continue
+					}
+					var nonZero *ssa.BasicBlock
+					switch bo.Op {
+					case token.EQL, token.LEQ:
+						nonZero = t.Succs[1]
+					case token.NEQ, token.GTR:
+						nonZero = t.Succs[0]
+					}
+					if nonZero != nil && (nonZero == b || nonZero.Dominates(b)) && len(nonZero.Preds) == 1 {
+						guarded = true
+					}
+				}
+				c.Check("Memory."+m+":slice-only-when-size≠0"+seqSuffix(n), "guarded-action", guarded, sl.Pos(), "the store is sliced at the operand's offset only when the operand has a length (a zero-length operand's offset was never checked against the memory size)")
+			}
+		}
+	}
+	c.Floor("Memory/slices", n, 1)
+}
+
+// c15BigFieldsNeverNil: the *big.Int fields of a transaction are dereferenced without a test all over the node (GasPrice(), Amount()
+// copy them); a box's sub transactions arrive as JSON from any peer, so txdata.UnmarshalJSON must not succeed with one of them unset: for
+// every *big.Int field of txdata, the decoded member it is filled from has a nil test whose nil edge ends in an error.
+func c15BigFieldsNeverNil(c *core.Ctx) {
+	fn := c.Fn("chain/types.txdata.UnmarshalJSON")
+	st := c.Struct("chain/types.txdata")
+	n := 0
+	for i := 0; i < st.NumFields(); i++ {
+		f := st.Field(i)
+		pt, isP := f.Type().(*types.Pointer)
+		if !isP || pt.Elem().String() != "math/big.Int" {
+			continue
+		}
+		n++
+		// the stores into t.<f>
+		ok, found := true, false
+		for _, b := range fn.Blocks {
+			for _, in := range b.Instrs {
+				s, isSt := in.(*ssa.Store)
+				if !isSt {
+					continue
+				}
+				fa, isFA := s.Addr.(*ssa.FieldAddr)
+				if !isFA || core.FieldOf(fa) != f || fa.X != ssa.Value(fn.Params[0]) {
+					continue
+				}
+				found = true
+				// the decoded member the value comes from
+				var srcField *types.Var
+				for v := range core.SliceShallow(s.Val) {
+					if sf := core.FieldOf(v); sf != nil && sf != f {
+						srcField = sf
+					}
+				}
+				rejects := false
+				for _, t := range fn.Blocks {
+					ifi := ifOf(t)
+					if ifi == nil {
+						continue
+					}
+					bo, isB := ifi.Cond.(*ssa.BinOp)
+					if !isB || (bo.Op != token.EQL && bo.Op != token.NEQ) || !(core.IsNilConst(bo.X) || core.IsNilConst(bo.Y)) {
+						continue
+					}
+					tested := bo.X
+					if core.IsNilConst(bo.X) {
+						tested = bo.Y
+					}
+					isSrc := false
+					for v := range core.SliceShallow(tested) {
+						if core.FieldOf(v) == srcField && srcField != nil {
+							isSrc = true
+						}
+					}
+					if !isSrc {
+						continue
+					}
+					nilEdge := t.Succs[0]
+					if bo.Op == token.NEQ {
+						nilEdge = t.Succs[1]
+					}
+					if len(nilEdge.Instrs) > 0 {
+						if r, isRet := nilEdge.Instrs[len(nilEdge.Instrs)-1].(*ssa.Return); isRet && core.ClassifyReturn(r, nil, nil) == core.RetFailure {
+							rejects = true
+						}
+					}
+				}
+				if !rejects {
+					ok = false
+				}
+			}
+		}
+		c.Check("txdata.UnmarshalJSON:"+f.Name()+"-required", "rejecting-test", ok && found, fn.Pos(), "a JSON transaction without %s is refused (the field is dereferenced untested by its readers)", f.Name())
+	}
+	c.Floor("txdata/big-int-fields", n, 2)
+}
+
+// c15AllocationsNotSizedByPeer: what a peer writes into a request decides no allocation size: in package network every make(...) has a
+// constant size or capacity, or one computed from lengths of values the node already holds (len(x)) — not from parameters or message
+// fields (a 10-byte GetBlocks request with a huge range would reserve memory in proportion to the range).
+func c15AllocationsNotSizedByPeer(c *core.Ctx) {
+	n := 0
+	for _, fn := range c.SrcFuncs {
+		if core.RelPkg(fn) != "network" || isTestHelper(c, fn) {
+			continue
+		}
+		seq := 0
+		for _, b := range fn.Blocks {
+			for _, in := range b.Instrs {
+				mk, ok := in.(*ssa.MakeSlice)
+				if !ok {
+					continue
+				}
+				n++
+				bad := ""
+				for _, sz := range []ssa.Value{mk.Len, mk.Cap} {
+					var walk func(v ssa.Value, d int)
+					walk = func(v ssa.Value, d int) {
+						if v == nil || d > 6 || bad != "" {
+							return
+						}
+						switch x := v.(type) {
+						case *ssa.Const:
+						case *ssa.Call:
+							if core.BuiltinCallName(x) != "len" && core.BuiltinCallName(x) != "cap" {
+								bad = "a call result"
+							}
+						case *ssa.BinOp:
+							walk(x.X, d+1)
+							walk(x.Y, d+1)
+						case *ssa.Convert:
+							walk(x.X, d+1)
+						case *ssa.Phi:
+							for _, e := range x.Edges {
+								walk(e, d+1)
+							}
+						case *ssa.Parameter:
+							bad = "parameter " + x.Name()
+						default:
+							bad = "a run-time value"
+						}
+					}
+					walk(sz, 0)
+				}
+				seq++
+				c.Check("make-size@"+shortFn(fn)+seqSuffix(seq), "bounded-allocation", bad == "", mk.Pos(), "the size of this allocation is a constant or a length of something already in memory: %s", orOK(bad))
+			}
+		}
+	}
+	c.Floor("network/makes", n, 2)
+}
+
+// c16ReadCallsStartFresh: a read-only call leaves nothing behind for the next one: the account manager a ReadContract request executes on
+// is made for that request — every call site of TxProcessor.ReadContract outside the tests gets a manager that derives from a
+// NewReadOnlyManager call in the calling function or in its caller (a manager kept between requests keeps the first call's writes).
+func c16ReadCallsStartFresh(c *core.Ctx) {
+	rc := c.Method("chain/transaction.TxProcessor", "ReadContract")
+	mk := c.FuncObj("chain/account.NewReadOnlyManager")
+	n := 0
+	for _, s := range c.CallSites(rc) {
+		if isTestHelper(c, s.Caller) {
+			continue
+		}
+		n++
+		a := s.Instr.Common().Args
+		ok := false
+		if len(a) >= 2 {
+			var fresh func(fn *ssa.Function, v ssa.Value, d int) bool
+			fresh = func(fn *ssa.Function, v ssa.Value, d int) bool {
+				if _, is := isCallOf(v, mk); is {
+					return true
+				}
+				if p, isP := v.(*ssa.Parameter); isP && d < 2 {
+					// handed in: every caller hands in a fresh one
+					idx := -1
+					for i, q := range fn.Params {
+						if q == p {
+							idx = i
+						}
+					}
+					o, isF := fn.Object().(*types.Func)
+					if idx < 0 || !isF {
+						return false
+					}
+					sites := c.CallSites(o)
+					if len(sites) == 0 {
+						return false
+					}
+					for _, cs := range sites {
+						if isTestHelper(c, cs.Caller) {
+							continue
+						}
+						ca := cs.Instr.Common().Args
+						if idx >= len(ca) || !fresh(cs.Caller, ca[idx], d+1) {
+							return false
+						}
+					}
+					return true
+				}
+				return false
+			}
+			ok = fresh(s.Caller, a[1], 0)
+		}
+		c.Check("ReadContract(fresh-manager)@"+shortFn(s.Caller), "value-flow", ok, s.Instr.Pos(), "the manager a read-only call executes on was made by NewReadOnlyManager for this request")
+	}
+	c.Floor("ReadContract/sites", n, 1)
+}
